@@ -314,8 +314,10 @@ def main():
             ctx.say('VIOLATION property=%s replay=%s%s' % (a.pid, rp, '' if has_input else ' no-failing-input-found'))
         sys.exit(1)
     if ctx.undecided:
-        for m in ctx.undecided:
+        for m in ctx.undecided[:8]:
             ctx.say('UNDECIDED: %s' % m)
+        if len(ctx.undecided) > 8:
+            ctx.say('UNDECIDED: ... and %d more (see evidence file)' % (len(ctx.undecided) - 8))
         sys.exit(2)
     ctx.say('OK property=%s tier=%s obligations=%d discharged=%d known_findings=%d wall=%.1fs'
             % (a.pid, a.tier, ob_n, dis_n, len(ctx.known), wall))
